@@ -105,7 +105,9 @@ def request(chk: Check, repo: Repo) -> None:
         "matcher rejects, then timeout": ("fn", ["answer:reject", "timeout"]),
         "timeout": ("fn", ["timeout"]),
         "closed by _stop (future cancelled, channel None)": ("fn", ["cancel:closed"]),
+        "matcher rejects first, then closed by _stop": ("fn", ["answer:reject", "cancel:closed"]),
         "task cancelled (channel still open)": ("fn", ["cancel:task"]),
+        "matcher rejects first, then task cancelled": ("fn", ["answer:reject", "cancel:task"]),
         "send fails": ("fn", ["send:fail"]),
         "no connection": ("fn", ["nochannel"]),
     }
@@ -121,8 +123,11 @@ def request(chk: Check, repo: Repo) -> None:
             if n == "matches":
                 i = env.get("#answers", 1) - 1
                 return [Outcome(f"MATCH:{script[i].split(':')[1]}", script[i].endswith("accept"))]
-            if isinstance(c.func, ast.Attribute) and c.func.attr == "cancelled" and isinstance(am.ev(c.func.value, env, {}), Obj) and am.ev(c.func.value, env, {}).cls == "Future" and n != "self._pending.cancelled":
-                return [Outcome(None, any(s.startswith("cancel") for s in script))]
+            if isinstance(c.func, ast.Attribute) and c.func.attr == "cancelled":
+                rv = am.ev(c.func.value, env, {})
+                if isinstance(rv, Obj) and rv.cls == "Future":
+                    # cancelled is the future that was being awaited when _stop() / the task cancellation struck — no other
+                    return [Outcome(None, rv == env.get("#cancelled"))]
             if n.startswith("logger.") or n.endswith("get_running_loop"):
                 return [Outcome(None, Obj("x", "x"))]
             return None
@@ -131,8 +136,8 @@ def request(chk: Check, repo: Repo) -> None:
 
         def step(node, env):
             a = node.ast
-            awaited = am.ev(a.value.value, env, {}) if node.kind == "stmt" and isinstance(a, ast.Assign) and isinstance(a.value, ast.Await) and isinstance(a.value.value, ast.Name) else None
-            if isinstance(awaited, Obj) and awaited.cls == "Future":  # the wait for the answer, whatever the local holding the future is called
+            awaited = am.ev(a.value.value, env, {}) if node.kind == "stmt" and isinstance(a, ast.Assign) and isinstance(a.value, ast.Await) else None
+            if isinstance(awaited, Obj) and awaited.cls == "Future":  # the wait for the answer, however the code refers to the future
                 i = env.get("#answers", 0)
                 ev = script[i] if i < len(script) else "timeout"
                 e2 = dict(env); e2["#answers"] = i + 1
@@ -142,16 +147,16 @@ def request(chk: Check, repo: Repo) -> None:
                     e2[ast.unparse(a.targets[0])] = Obj("CEMIFrame", f"answer{i}")
                     return [("next", e2)]
                 excn = "TimeoutError" if ev == "timeout" else "CancelledError"
+                if ev.startswith("cancel"):
+                    e2["#cancelled"] = awaited
+                    if ev == "cancel:closed":
+                        e2["self.communication_channel"] = None  # _stop() clears the channel before it cancels the pending future
                 e2["trace"] = tr + (f"AWAIT({awaited!r}):{excn}",)
                 e2["#raised"] = excn
                 return [(f"goto:{am._exc_target(node, excn)}", e2)]
             return base(node, env)
 
-        closed = script[0] in ("cancel:closed", "nochannel")
         env = {"matches": Obj("fn", "m") if matcher else None, "self.communication_channel": None if script[0] == "nochannel" else 5}
-        if script[0] == "cancel:closed":
-            # _stop()/disconnect() cleared the channel while the request was waiting
-            pass
         paths = Explorer(cfg, repo, step, max_steps=300).run(cfg.entry, [], env)
         res = set()
         for p in paths:
@@ -166,31 +171,13 @@ def request(chk: Check, repo: Repo) -> None:
             "matcher rejects first, accepts second": {(("SEND", f"AWAIT({F0})", "MATCH:reject", f"AWAIT({F1})", "MATCH:accept"), A1, "None")},
             "matcher rejects, then timeout": {(("SEND", f"AWAIT({F0})", "MATCH:reject", f"AWAIT({F1}):TimeoutError"), "raise CommunicationError", "None")},
             "timeout": {(("SEND", f"AWAIT({F0}):TimeoutError"), "raise CommunicationError", "None")},
-            "closed by _stop (future cancelled, channel None)": None,
+            "closed by _stop (future cancelled, channel None)": {(("SEND", f"AWAIT({F0}):CancelledError"), "raise CommunicationError", "None")},
+            "matcher rejects first, then closed by _stop": {(("SEND", f"AWAIT({F0})", "MATCH:reject", f"AWAIT({F1}):CancelledError"), "raise CommunicationError", "None")},
             "task cancelled (channel still open)": {(("SEND", f"AWAIT({F0}):CancelledError"), "raise CancelledError", "None")},
+            "matcher rejects first, then task cancelled": {(("SEND", f"AWAIT({F0})", "MATCH:reject", f"AWAIT({F1}):CancelledError"), "raise CancelledError", "None")},
             "send fails": {(("SEND:fail",), "raise CommunicationError", "None")},
             "no connection": {((), "raise CommunicationError", repr(None))},
         }[label]
-        if label.startswith("closed by _stop"):
-            # the channel is cleared by disconnect()/_connection_lost() while waiting: evaluate the handler with channel None
-            def step2(node, env):
-                r = step(node, env)
-                return r
-            env2 = dict(env)
-            am2 = AbsMachine(cfg, exc, cm, enum_hook(repo, fi))
-            base2 = am2.step
-            def step_closed(node, env_):
-                a = node.ast
-                awaited = am2.ev(a.value.value, env_, {}) if node.kind == "stmt" and isinstance(a, ast.Assign) and isinstance(a.value, ast.Await) and isinstance(a.value.value, ast.Name) else None
-                if isinstance(awaited, Obj) and awaited.cls == "Future":
-                    e2 = dict(env_); e2["self.communication_channel"] = None
-                    e2["trace"] = tuple(env_.get("trace", ())) + (f"AWAIT({awaited!r}):CancelledError",)
-                    e2["#raised"] = "CancelledError"
-                    return [(f"goto:{am2._exc_target(node, 'CancelledError')}", e2)]
-                return base2(node, env_)
-            paths = Explorer(cfg, repo, step_closed, max_steps=300).run(cfg.entry, [], env2)
-            res = {(tuple(t for t in p.env.get("trace", ()) if not t.startswith("raise:")), repr(p.env.get("#ret")) if p.end_kind == "exit" else f"raise {p.env.get('#raised')}", repr(p.env.get("self._pending"))) for p in paths}
-            want = {(("SEND", f"AWAIT({F0}):CancelledError"), "raise CommunicationError", "None")}
         chk.ob("request-scenario", fi.site(), res == want, f"{label}: {sorted(map(str, res))}; reference {sorted(map(str, want))}", key=f"req|{label}" + ("" if res == want else f"|{sorted(map(str, res))}"))
     # every future awaited is the one stored in the pending slot
     # the local(s) holding the awaited future: names assigned from create_future()
